@@ -82,7 +82,7 @@ def run(ctx):
                        "qid": 4000 + j, "rd": rd, "udp": udp, "_labels_from": nm})
     hv = bv + [{k: x for k, x in m.items() if not k.startswith("_")} for m in mq]
     bres, _ = cl.run_harness(ctx, exe, "c03_build", hv, timeout=1200, procs=2)
-    for vid, sig, text in cl.safety_findings(bres):
+    for vid, sig, text in cl.confirmed_safety(ctx, exe, hv, bres):
         _once(ctx, seen, "write." + sig, text, None)
 
     events = []
@@ -133,7 +133,7 @@ def run(ctx):
         pv = [{"id": v["id"], "op": "parse", "hex": cl.hx(v["nb"]), "flags": fl, "wb": fl, "names": 0, "legacy": 0}
               for v, fl in part]
         pres, _ = cl.run_harness(ctx, exe, "c03_parse_%d" % (a // CH), pv, timeout=1500)
-        for vid, sig, text in cl.safety_findings(pres):
+        for vid, sig, text in cl.confirmed_safety(ctx, exe, pv, pres):
             _once(ctx, seen, "write." + sig, text, None)
         events, info = [], {}
         for v, _fl in part:
